@@ -194,6 +194,11 @@ def run(prog, rep, tier='quick', config='default'):
     for n, c in enumerate(feed_sites, 1):
         f = c.fn
         root = mir.nearest_user_local(f, c.args[0])
+        if root is None or (f.kind == 'Closure' and f.is_param(root)):
+            # the call sits in a closure (`flag.then(|| calc_total_costs(&all_deltas))`): judge the captured list in the owner
+            of, ol = mir.owner_local_of_upvar(prog, f, c.args[0])
+            if of is not None:
+                f, root = of, ol
         k = '%s|every-delta-reaches-the-cost-pass#%d' % (f.name.split('::{')[0], n)
         if root is None:
             rep.violation('R17g', k, where=c.where(), fn=f.name, detail='anchor lost: the delta list handed to the cost tables is not a local variable')
@@ -201,7 +206,7 @@ def run(prog, rep, tier='quick', config='default'):
         bad = None
         n_feed = 0
         for x in f.calls:
-            if not x.args or mir.nearest_user_local(f, x.args[0]) != root or x is c:
+            if not x.args or mir.nearest_user_local(f, x.args[0]) != root or x is c or x.bb == c.bb and x.fn is c.fn:
                 continue
             if x.short in FILTERS:
                 bad = (x, '%s() on the delta list' % x.short)
